@@ -134,6 +134,9 @@ def make_repl(rng, pat, kind):
     pels = list(pat["elements"])
     n = len(pels)
     sub = {"Si": "Ge", "O": "S", "N": "P", "Zr": "Hf", "B": "Al"}
+    if rng.integers(2):
+        # substitutes whose symbols BEGIN with the symbol they replace (B -> Br, N -> Ni, O -> Os): another element all the same
+        sub = {"Si": "Sn", "O": "Os", "N": "Ni", "Zr": "Zn", "B": "Br"}
     els, pos = [], []
     if kind == "empty":
         pass
